@@ -226,7 +226,7 @@ func Run(r *vk.Run) {
 	r.Rule = "seeded runs of a real aggregator with MaxPendingHeadersAndData = limit in {1,2,3,5}: rounds of (one header-submission iteration, one data-submission iteration, 1-4 production steps); a DA outage of 0-6 rounds (all submissions fail, or only the header / only the data stream), then an accepting DA layer; block patterns all-empty, all-non-empty, alternating, long empty tails; initial height {1,4}; in half of the runs the node is restarted every 1-4 rounds (clean, or by a crash inside a production step after 0-6 durable writes), also during the outage. Safety per production step: declined => >= limit blocks are beyond the accepted prefix of the header or of the data stream (empty blocks need no data blob); produced => fewer than limit. Liveness: R accepting rounds raise the height by >= R-1. non-trivial = at least one declined step; distinct by parameter tuple"
 	r.Assume("a submission round is atomic in the harness: header iteration directly followed by data iteration (the two ticker loops of the node have the same period); production steps do not interleave between them")
 	rng := r.Rand("cases")
-	n := r.N(300, 4000)
+	n := r.N(300, 25000)
 	patterns := []string{"e", "x", "ex", "xe", "xeeeee", "eeeex", "xxe", "eexx"}
 	faults := []string{"error", "timeout", "toobig", "hdr-only", "data-only"}
 	var cases []Case
